@@ -7,6 +7,7 @@ whitespace-only commands are never approved.  Correspondence: Ladder model == _a
 and walker model == analyze."""
 from __future__ import annotations
 
+import itertools
 import random
 import string
 from pathlib import Path
@@ -148,6 +149,24 @@ def run(tier, seed, replay=None):
                 continue
             for args in ("", " x", " -rf /", " -f x y", " deploy production"):
                 judge_text(sp + args, "known-name-family")
+    # --- every code point as a whole command, alone and around a known name: bash separates words at blanks and newlines
+    # only, so any other character - white space in Python's sense included - is (part of) a program name nobody knows
+    known1 = {n for n in all_known if len(n) == 1} | {"#"}
+    cps = list(range(1, 0x3100)) + [0xFEFF, 0xE0020, 0x1F600, 0xFF0C, 0x1680, 0x180E, 0x205F, 0x3000]
+    if tier == "quick":
+        cps = [cp for cp in cps if cp < 0x100 or chr(cp).isspace() or cp % 7 == seed % 7]
+    for cp in cps:
+        ch = chr(cp)
+        if ch in " \t\n":
+            continue
+        for text, ok_if in ((ch, ch in known1), (ch + "ls", False), ("ls" + ch, False), (ch + " ls", ch in known1 or ch in ";&|(){}<>!#" or ch == "\\"),
+                            (f"bash -c '{ch}'" if ch != "'" else "bash -c x", ch in known1)):
+            if ch in ";&|(){}<>!#\"'`$\\*?[]~=" and text != ch:
+                continue      # shell syntax: judged by the other streams
+            judge_text(text, "code-point", must_not_allow=not ok_if)
+    ws = [chr(c) for c in range(0x3100) if chr(c).isspace()]
+    for a_, b_ in itertools.product(ws, repeat=2):
+        judge_text(a_ + b_, "white-space-only")
     for name in names[:10]:
         for sp in (f'"{name}" a', f"'{name}' a", f'{name[:1]}""{name[1:]} a', f"\\{name} a", f"${{X:-{name}}} a", f"$(echo {name}) a",
                    f"$X{name} a", f"`echo {name}` a", f"{name}$'' a", f"eval {name}", f"exec {name}"):
@@ -208,7 +227,7 @@ def run(tier, seed, replay=None):
         judge_text(text, "huge", must_not_allow=False)
     # function-level ties of the two helpers that decide WHICH word is the program name
     from . import funcs
-    funcs.run_ties(out, model, ["is_assignment", "strip_quotes"], tier, rng, an)
+    funcs.run_ties(out, model, ["is_assignment", "strip_quotes", "analyze_prelude"], tier, rng, an)
     model.close()
     n, mism = core.coq_crosscheck("C05", xcheck)
     out.extra["coq_vm_crosscheck"] = {"cases": n, "mismatches": len(mism)}
